@@ -274,6 +274,9 @@ func cmdCheck(args []string) int {
 				c.Stdout = &out
 				c.Stderr = &out
 				err := c.Run()
+				if replay != "" {
+					fmt.Print(out.String())
+				}
 				pb, rerr := os.ReadFile(outFile)
 				if rerr != nil {
 					o := out.String()
